@@ -48,11 +48,20 @@ FLOORS = {
     "quick": {"evaluations": 1500, "distinct": 450,
               "counters": {"rendered_ok": 600, "nonces_arrived_escaped": 3000, "mode.static": 150,
                            "mode.selector": 60, "mode.runtime": 200, "control_leaks_detected": 16,
-                           "filters_distinct_seen": 36}},
+                           "filter.indent": 40, "filter.join": 60, "filter.replace": 30, "filter.urlize": 15,
+                           "filter.xmlattr": 15, "filter.tojson": 15, "filter.truncate": 10, "filter.wordwrap": 10,
+                           "filter.format": 10, "filter.striptags": 8, "construct.cap.macro": 20,
+                           "construct.cap.setblock": 20, "construct.callblock": 40, "construct.include": 15,
+                           "construct.cap.import_macro": 10, "construct.xblock": 15}},
     "thorough": {"evaluations": 40000, "distinct": 25000,
                  "counters": {"rendered_ok": 30000, "nonces_arrived_escaped": 150000, "mode.static": 7000,
                               "mode.selector": 3500, "mode.runtime": 10000, "control_leaks_detected": 16,
-                              "filters_distinct_seen": 45}},
+                              "filter.indent": 800, "filter.join": 1200, "filter.replace": 600, "filter.urlize": 300,
+                              "filter.xmlattr": 300, "filter.tojson": 300, "filter.truncate": 200,
+                              "filter.wordwrap": 200, "filter.format": 200, "filter.striptags": 150,
+                              "construct.cap.macro": 400, "construct.cap.setblock": 400,
+                              "construct.callblock": 800, "construct.include": 300,
+                              "construct.cap.import_macro": 200, "construct.xblock": 300}},
 }
 MAX_REDUCE_EVALS = 400
 
@@ -99,11 +108,11 @@ def all_nonces(case):
     found = set()
     for v in case["data"].values():
         for s in _strings(v):
-            found.update(re.findall(r"\d{5}", s))
+            found.update(re.findall(r"9[0-8]{4}", s))
     for u in case["units"]:
         for _, n, so in IR.walk(u, "S"):
             if so != "S" and n[0] == "lit":
-                found.update(re.findall(r"\d{5}", n[1]))
+                found.update(re.findall(r"9[0-8]{4}", n[1]))
     return found
 
 
@@ -516,7 +525,7 @@ def analyse(ctx, case, report=True):
     ctx.count("mode." + case["mode"])
     if case["mode"] == "runtime":
         ctx.count(f"runtime.{case.get('flag')}.{case.get('layout')}")
-    arrived = len(set(re.findall(r"(\d{5})&(?:lt|gt|#34|#39);", out)))
+    arrived = len(set(re.findall(r"(9[0-8]{4})&(?:lt|gt|#34|#39);", out)))
     ctx.count("nonces_arrived_escaped", arrived)
     if arrived:
         ctx.dist(sorted(files.items()))
@@ -557,10 +566,13 @@ def count_constructs(ctx, case, seen):
             t = IR.tag_of(n)
             if t == "f":
                 seen.add(n[1])
+                ctx.count("filter." + n[1])
                 if n[1] == "map" and n[3] and n[3][0][1][0] == "klit":
                     seen.add(n[3][0][1][1])
+                    ctx.count("filter." + n[3][0][1][1])
             elif t == "fblock":
                 seen.add(n[1])
+                ctx.count("filter." + n[1])
                 ctx.count("construct.fblock")
             elif t not in ("d", "lit", "klit", "num", "bool", "none", "hole", "var", "out", "text", "L", "D", "LD"):
                 ctx.count("construct." + (t if t != "m" else "method"))
@@ -569,13 +581,13 @@ def count_constructs(ctx, case, seen):
 FIXED = [
     # the shapes named in DESIGN.md, always run by shard 0
     {"mode": "static", "units": [[["out", ["f", "indent", ["f", "e", ["d", "d1"], []], [[None, ["d", "d2"]]]]]]],
-     "data": {"d1": "a\nb", "d2": "11111<11111>11111"}},
-    {"mode": "runtime", "flag": "volatile", "layout": "stmt", "units": [[["out", ["lit", "22222<22222"]]]], "data": {}},
+     "data": {"d1": "a\nb", "d2": "91111<91111>91111"}},
+    {"mode": "runtime", "flag": "volatile", "layout": "stmt", "units": [[["out", ["lit", "92222<92222"]]]], "data": {}},
     {"mode": "runtime", "flag": "literal", "layout": "file", "units": [[["block", [["out", ["d", "d1"]]]]]],
-     "data": {"d1": "33333<33333"}},
+     "data": {"d1": "93333<93333"}},
     {"mode": "selector", "extends": True,
-     "units": [[["xblock", [["out", ["d", "d1"]]], ["super", ["bin", "~", ["hole"], ["lit", "44444'44444"]]]]]],
-     "data": {"d1": "55555\"55555"}},
+     "units": [[["xblock", [["out", ["d", "d1"]]], ["super", ["bin", "~", ["hole"], ["lit", "94444'94444"]]]]]],
+     "data": {"d1": "95555\"95555"}},
 ]
 
 
@@ -609,10 +621,7 @@ def run(ctx):
             ctx.sample({"mode": case["mode"], "flag": case.get("flag"), "layout": case.get("layout"),
                         "env": case["env"], "files": files, "data": case["data"]})
         i += 1
-    # per-shard number of distinct filters exercised; merged by max-ish sum/nshards is not
-    # available, so report the minimum guarantee through a counter of per-shard average
-    ctx.count("filters_distinct_seen", len(seen_filters) // ctx.nshards if ctx.nshards > 1 else len(seen_filters))
-    ctx.extra["filters_seen_shard_sum"] = len(seen_filters)
+    ctx.extra["filters_distinct_per_shard_sum"] = len(seen_filters)
 
 
 def replay(ctx, case):
